@@ -209,7 +209,12 @@ def template_trees(F, fn):
 
 
 def all_templates(F):
-    return [f for f in F.all_fns if f.key.startswith("mahf::heuristics::") and f.kind == "Fn"]
+    # functions of the heuristics modules that BUILD something: they return a configuration or a component (possibly
+    # inside a Result).  Helper fn items (scope init / merge functions, parameter conversions) are not templates.
+    def builds(f):
+        out = (f.sig or {}).get("output", "")
+        return ("configuration::Configuration<" in out) or ("dyn mahf::components::Component<" in out) or ("dyn mahf::conditions::Condition<" in out)
+    return [f for f in F.all_fns if f.key.startswith("mahf::heuristics::") and f.kind == "Fn" and builds(f)]
 
 
 if __name__ == "__main__":
